@@ -559,10 +559,13 @@ mutual
         rcases hg with rfl | rfl
         · cases n <;> exact ⟨rfl, rfl⟩
         · exact ⟨rfl, rfl⟩
-      have m2 : MarkerFree (ins [.endMatrix, .moveq (.operand .matrixLight) (.reg .operand)]) := by
+      have m2 : MarkerFree (ins [.endMatrix, genName n, .moveq (.operand .matrixLight) (.reg .operand)]) := by
         intro g hg
         simp only [ins_cons, ins_nil, List.mem_cons, List.mem_nil_iff, or_false] at hg
-        rcases hg with rfl | rfl <;> exact ⟨rfl, rfl⟩
+        rcases hg with rfl | rfl | rfl
+        · exact ⟨rfl, rfl⟩
+        · cases n <;> exact ⟨rfl, rfl⟩
+        · exact ⟨rfl, rfl⟩
       rw [rsegC_mf_right (m1.neutral.append hb.neutral) m2, rsegC_mf_left m1]
       exact split_block body false true h.2
   theorem split_operands (k : ActKind) : ∀ (ops : Operands) (im : Bool),
